@@ -24,7 +24,7 @@ RULE = ("composed-stack exploration: client A sets a state vector and calls appl
         "the device before A applies its unchanged state again. "
         "Oracle: reference-device state == applied vector; A's and B's public attributes == device state. "
         "Plus one long session per protocol: > 600 commands (two wraps of the 8-bit message id) from one client pair, device and "
-        "read-back compared in every round; every other read-back is a two-exchange refresh during which the unit is changed by a remote control and reports it. state = (vector, protocol, choice prefix); transition = one choice point answered")
+        "read-back compared in every round; idle-time notifications with response ids the library ignores; every other read-back is a two-exchange refresh during which the unit is changed by a remote control and reports it. state = (vector, protocol, choice prefix); transition = one choice point answered")
 ASSUMPTIONS = ["unsolicited reports are truthful", "segments of one reply arrive 1 microsecond apart and before the read timeout",
                "V2 has no stream framing in the library: split / coalesced V2 replies are a recorded known finding, every other "
                "violation is reported"]
@@ -360,6 +360,14 @@ def run_long(st: Stats, tier, version):
             dd = {k: (v, model.state[k]) for k, v in want.items() if model.state[k] != v}
             if dd:
                 problems.append((i, len(model.frames), f"device state differs from the applied state: {dd}"))
+            if i % 5 == 1:
+                # while the connection idles the unit volunteers a notification of a kind the library has no use for
+                # (response ids A0 / A1 / 0D): it is queued and met by the next exchange
+                rid = (0xA0, 0xA1, 0x0D)[(i // 5) % 3]
+                for c in rig.w.net.conns:
+                    if not c.closing:
+                        c.deliver(rig.dev.wrap(c, rc.frame_build(bytes([rid]) + bytes(range(1, 19)) + bytes([0x33]), 0x05)), 0.001)
+                await asyncio.sleep(0.01)
             if i % 3 == 0:
                 remote["arm"] = i % 2 == 0
                 await b.refresh()
